@@ -89,7 +89,12 @@ V4FieldAll == { F4("", FALSE, 0, FALSE), F4("0", TRUE, 0, TRUE), F4("00", TRUE, 
                 F4("1", TRUE, 1, TRUE), F4("25", TRUE, 25, TRUE), F4("249", TRUE, 249, TRUE), F4("250", TRUE, 250, TRUE),
                 F4("255", TRUE, 255, TRUE), F4("256", FALSE, 0, FALSE), F4("260", FALSE, 0, FALSE),
                 F4("0000000000255", TRUE, 255, FALSE), F4("999999999999", FALSE, 0, FALSE), F4("1a", FALSE, 0, FALSE),
-                F4("-1", FALSE, 0, FALSE), F4(" 1", FALSE, 0, FALSE), F4("+1", FALSE, 0, FALSE), F4("1 ", FALSE, 0, FALSE) }
+                F4("-1", FALSE, 0, FALSE), F4(" 1", FALSE, 0, FALSE), F4("+1", FALSE, 0, FALSE), F4("1 ", FALSE, 0, FALSE),
+                \* digit strings around the machine word sizes (2^32+7, 2^63, 2^64, 2^64+7, 2^64+255, 32 nines):
+                \* the VALUE of the field decides, however it would wrap in a fixed-width accumulator
+                F4("4294967303", FALSE, 0, FALSE), F4("9223372036854775808", FALSE, 0, FALSE),
+                F4("18446744073709551616", FALSE, 0, FALSE), F4("18446744073709551623", FALSE, 0, FALSE),
+                F4("18446744073709551871", FALSE, 0, FALSE), F4("99999999999999999999999999999999", FALSE, 0, FALSE) }
 \* Zero padding is a dimension of its own: the property bounds the VALUE of a field, not its
 \* length, so every field may carry any number of leading zeros, independently of the others.
 RECURSIVE Zeros(_)
